@@ -662,7 +662,15 @@ class Engine:
             if sign > 0:
                 return Q(ANY, num)
             return self.unknown(node, "division by a polymorphic value")
-        return Q(a.deg + b.deg if sign > 0 else a.deg - b.deg, num)
+        r = Q(a.deg + b.deg if sign > 0 else a.deg - b.deg, num)
+        # an array scaled by a recognisable scalar (a numeric constant, or one of its own axis lengths) keeps its
+        # typed shape: `x.shape[0] * x` can still be summed over its typed spin axis
+        for arr, o in ((a, b), (b, a) if sign > 0 else (None, None)):
+            if arr is not None and isinstance(arr.shape, Tup) and o.shape is None and o.n is None \
+                    and (o.num is not None or any(o is it for it in arr.shape.items)):
+                r.shape = arr.shape
+                break
+        return r
 
     def power(self, a, e, node):
         if isinstance(a, Unk):
